@@ -12,5 +12,6 @@ import AtreeProofs.Array.Route
 import AtreeProofs.Array.TreeOps
 import AtreeProofs.Array.Top
 import AtreeProofs.Array.Iter
+import AtreeProofs.Array.Example
 /- Helper lemmas for the array model (arithmetic layer, slab layer, tree layer): see
    `AtreeProofs/Array/*.lean`. -/
